@@ -196,6 +196,17 @@ def faults_leg(ck, tier):
                     cfg['mutate'] = mutate
                     scs.append({'argv': [view, '--skip-rate-test', '-t', '3', audit.HOST], 'servers': {(audit.HOST, 22): cfg}})
                     meta.append((a, kname, k, view))
+    # the server goes away part-way through the probe sequence: every connection after the j-th is refused.  What is shown is what the
+    # probe loop recorded up to there - by the loop's own rule (a probe that cannot be made ends the sequence without a size)
+    arch2 = arch + [dict(moduli=[1024, 2048], style='openssh', openssh=False, gex=[GEX256]), dict(moduli=[1024, 2048], style='openssh', openssh=False, gex=[GEX1, GEX256]),
+                    dict(moduli=[1536, 3072], style='openssh', openssh=False, gex=[GEX256])]
+    for ai, a in enumerate(arch2):
+        for j in range(3, 14 if tier == 'quick' else 22):
+            for view in (('-n',) if (j + ai) % 3 else ('-n', '-j')):
+                cfg = server_cfg(a)
+                cfg['refuse_after'] = j
+                scs.append({'argv': [view, '--skip-rate-test', '-t', '3', audit.HOST], 'servers': {(audit.HOST, 22): cfg}})
+                meta.append((a, 'goes-away', 1000 + j, view))
     results = runner.run_many(scs)
     items, imeta = [], []
     for (a, kname, k, view), sc, r in zip(meta, scs, results):
